@@ -95,12 +95,22 @@ Theorem C05_handover_routed : forall t items inb nw wf,
 Proof. intros. split; [apply crecv_handover_routed|apply crecv_handover_answers]. Qed.
 
 (* Component: everything up to the first element the loop stops at, synchronously and therefore in
-   arrival order; a component (no stream management) answers no request *)
+   arrival order; a component (no stream management) answers no request; however its loop ends it reports
+   ONE Disconnected event (also when the server closed the stream), one error callback per stream error plus
+   one unless the server closed; and behind a stream error whose handler has replaced the component's
+   transport, the same for [items] and the stream error, nothing beyond *)
 Theorem C05_component_in_order : forall items,
   routed (precv items) = processed items /\ all_sync (precv items) = true /\
-  attempted (precv items) = [].
+  attempted (precv items) = [] /\
+  count_act is_disc (precv items) = 1%nat /\
+  count_act is_err (precv items)
+  = ((if ends_by_close items then 0 else 1) + length (filter is_serr (processed items)))%nat /\
+  forall t, routed (precv_handover t items)
+            = processed items ++ (if reaches_end items then [IStreamError t] else []).
 Proof.
-  intros items. split; [apply precv_routed|]. split; [apply precv_sync|apply precv_no_answers].
+  intros items. split; [apply precv_routed|]. split; [apply precv_sync|]. split; [apply precv_no_answers|].
+  destruct (precv_reported_once items) as [H1 H2]. split; [exact H1|]. split; [exact H2|].
+  intros t. apply precv_handover_routed.
 Qed.
 
 (* "all sizes and contents", from the stream: for every list of top-level items (elements the switch nest of
